@@ -146,6 +146,8 @@ def AUTO_MASK_INIT_ZERO : Bool := true
 def encodeToBitmap (qr : QRCode) : Out Image := do
   if !versionIsValid qr.version then Out.err (α := Unit) "qrcode: invalid version"
   if !levelIsValid qr.level then Out.err (α := Unit) "qrcode: invalid level"
+  if qr.version = 0 then Out.err (α := Unit) "qrcode: invalid version"
+  if !maskIsValid qr.mask then Out.err (α := Unit) "qrcode: invalid mask"
   let buf ← encodeToBits qr {}
   let w : Int := 16 + 4 * qr.version
   let img ← deref (← imgAt baseList qr.version)
